@@ -9,36 +9,52 @@ metas = {os.path.basename(d): json.load(open(os.path.join(d, "meta.json"))) for 
 n = len(metas)
 det = sum(1 for m in metas.values() if m["detected_by"])
 own = sum(1 for k, m in metas.items() if m["property"] in m["detected_by"])
+ntw = len(glob.glob(os.path.join(root, "twins", "*.diff")))
+twin_note = open(os.path.join(root, "twins", "STATUS.md")).read().strip() if os.path.exists(os.path.join(root, "twins", "STATUS.md")) else ""
 sec9 = """## 9. Independently seeded changes: which checks catch which
 
-Twenty sub-agents (one per property) were each given only the property
-record and a scratch git worktree of /repo under /tmp - nothing from /verif -
-and asked for three changes that break the property through different
+Two rounds of twenty sub-agents (one per property) were each given only the
+property record and a scratch git worktree of /repo under /tmp - nothing from
+/verif - and asked for changes that break the property through different
 mechanisms, keep the pinned suite at its baseline and need something specific
-to manifest, each with a demonstration program. All %d deliveries were
-confirmed by `tools/confirm_seed.py` in a fresh scratch worktree (patch applies,
-suite = 396 passed + the one pre-existing failure, demonstration fails with
-the change and passes without it; worktree removed afterwards) and are kept
-under `/verif/seeded/<ID>-<n>/` (`patch.diff`, `demo.py`, `meta.json` with the
-author's notes on what the change needs in order to manifest). Each was then
-applied to /repo (`git apply`), all 20 quick checks were run, and /repo was
-restored at once (`tools/try_seed.py`, `tools/reseed_table.py`).
+to manifest, each with a demonstration program: three per property in the
+first round, four in the second (which was also handed the notes of the first
+round as "already tried" and a list of kinds of slip to spread over: a moved
+check or reset, a condition weakened or strengthened by one conjunct, a value
+cached or shared where it was recomputed or copied, two siblings made to
+disagree, state not updated on an early-return or exception path, a wrong but
+plausible argument, an exception type or handler changed, iteration order or
+insertion position). All %d deliveries were confirmed by `tools/confirm_seed.py`
+in a fresh scratch worktree (patch applies, suite = 396 passed + the one
+pre-existing failure, demonstration fails with the change and passes without
+it; worktree removed afterwards) and are kept under `/verif/seeded/<ID>-<n>/`
+(`patch.diff`, `demo.py`, `meta.json` with the author's notes on what the
+change needs in order to manifest; n = 1-3 first round, 4-7 second round). One
+delivery of the second round (`C13-5`) had been swapped with another agent's
+change through the repository-wide `git stash`; the confirmation step caught
+it (the demonstration passed with the patch) and the right diff, which the
+other agent had saved, was confirmed instead. Each change was then applied to
+/repo (`git apply`), all 20 quick checks were run, and /repo was restored at
+once (`tools/try_seed.py`, `tools/reseed_table.py`). The seed `C15-1` and two
+refactor twins touch the lines that the repair F24 rewrote; they were
+re-derived on the repaired tree (same change) and confirmed again.
 
-First pass (rules as built in round 1): 25 of 60 were reported. Every miss was
-triaged: where the broken clause is visible in the shape of the code and is a
-necessary condition of the property, a rule was added or generalised (round 2
-below); where it is a value-level fact it stays declined. Now **%d of %d** are
-reported, %d of them by the check of the very property the change was seeded
-for (the others by a neighbouring property's check as well or instead - the
-shared rules are instantiated under both ids where the property text covers
-them). Every kept seed that a check reports is also part of that check's
-self-test in the thorough tier (the patch is applied in memory), so a later
-weakening of a rule that lets one through again is an ANALYSIS-ERROR.
+First round: 25 of 60 were reported by the rules as first built, 56 of 60
+after the rules of "round 2" below. Second round: of the 80 new changes 28
+were reported by the check of their own property, 12 only by a neighbouring
+property's check and 40 by none. Every miss was triaged: where the broken
+clause is visible in the shape of the code and is a necessary condition of
+the property, a rule was added or generalised ("round 3" below); where it is a
+value-level fact, or outside what the property quantifies over, it stays
+declined. Now **%d of %d** are reported, %d of them by the check of the very
+property the change was seeded for (shared rules are instantiated under both
+ids where the property text covers them). Every kept seed that a check
+reports is also part of that check's self-test in the thorough tier (the patch
+is applied in memory), so a later weakening of a rule that lets one through
+again is an ANALYSIS-ERROR.
 
 %s
-Not reported (all four are arithmetic / string-value facts, i.e. clauses this
-family declines - no structural necessary condition distinguishes them from
-correct code):
+Not reported by the property they were seeded for:
 
 * `C01-1` - the last letter of a short-option group is handed `""` instead of
   `None` (`name[i + 1:]` without the `length - 1 == i` test): whether a slice
@@ -46,8 +62,22 @@ correct code):
 * `C14-1` - the rounding correction of the column widths is applied to the
   wrong column index: arithmetic over runtime widths.
 * `C15-1` - rows of a wrapped line counted as `len // width + 1` instead of
-  `ceil(len / width) or 1`: arithmetic.
+  `ceil(len / width) or 1`: arithmetic (wrong only for exact multiples).
 * `C16-2` - `(k * count) %% width` rewritten as `k * (count %% width)`: arithmetic.
+* `C05-7` - `Config.args_parser` stores the default parser it creates, so
+  all commands of a config share one parser. Declined: for every *sequence* of
+  parses (what C05 quantifies over) a shared `DefaultArgsParser` still behaves
+  like a fresh one, because C05-R1 proves the reset; the demonstration needs
+  two parses that overlap in time (a raw-args object that blocks on an event
+  in another thread). The construct itself - a getter filling in a default
+  while the field is `None` - is an idiom the unchanged tree uses for the
+  command resolver and the style set, so a rule against it would fire on
+  correct code.
+* `C08-7` - one `TokenParser` kept as a class attribute of `StringArgs`:
+  reported by C17-R7 (a stateful object created once at class level), not by
+  C08: tokenising any single string still gives the right tokens (`parse()`
+  re-initialises the scanner), the demonstration again needs two constructor
+  calls interleaved on two threads.
 
 Rules added or generalised in round 2 because a seed showed the gap (each is a
 necessary condition of its property and silent on the unchanged tree):
@@ -73,43 +103,92 @@ level or as a default), C18-R2 (per-entry freshness, exceptional edges do not
 count as assignments), C19-R4 (no join under a lock the spinner takes), C19-R5
 (join before the end frame), C20-R6 (gap text copied from the source line).
 
-**Refactor twins (false-alarm test).** A second round of twenty sub-agents, again
-given only a property record and a scratch worktree, each wrote four
+Rules added or generalised in round 3 (second seeding round; same standard):
+C01-R3 / C02-R7 (with the separator flag cleared every drawn token reaches
+the positional parse - a second `--` is a value), C01-R8 (the attached value
+is the open-ended remainder after the FIRST `=`), C01-R9 (the accessors of
+`Args` never mutate the value maps, at any alias depth), C01-R10 (= C05-R1
+under C01), C02-R8 (a constant index into a freshly drawn token only behind a
+non-emptiness test, on every *feasible* path - flag conditions are tracked),
+C02-R9 (no `None` assignment can reach the value-given-to-a-flag test except
+under a non-string sentinel), C02-R10 (= C01-R6), C03-R5 (the registration
+markers are asked of the command being added, not of its parent), C03-R11
+(the trial parse of a default is caught for the cannot-parse class only),
+C04-R8 (`is_handled` reads exactly the field `handled()` writes), C04-R9 (the
+handler's result is passed on unchanged), C04-R10 / C20-R8 (= C17-R4, whose
+key cover is now per attribute: `frame.filename` in the key does not cover
+`frame.lineno` in the value), C05-R4 (`Command.parse` stores nothing),
+C06-R5 (a marker is set under its own predicate and under no other), C07-R8
+(every constructor chain calls every unconditional validator of its
+hierarchy), C07-R9 (a rejected `set_default` stores nothing), C07-R10 (=
+C02-R4), C08-R4 (the unescape set may be a parameter: default and every
+argument must be the constant delimiter set), C08-R5 (every scanned token is
+appended on every path), C09-R6 / C10-R5 (`IO.set_*` reaches both outputs on
+every path), C09-R9 (the I/O is built before the command is resolved),
+C09-R10 (the decoration decision of `Output()` as an 8-row truth table),
+C09-R11 / R12 (= C01-R4 lookahead clause, C02-R2), C11-R7 (lines are indented
+before they are formatted), C11-R8 (`IO.error_*` delegates like `IO.write_*`),
+C12-R4 (the rebuild carries over every stored listener), C12-R6 (the
+all-events form rebuilds every missing entry), C12-R9 (listener presence is
+never stored), C13-R6 (the wrap width pays for every prefix added outside the
+wrapper), C13-R7 (= C17-R5 for help pages; the reset-before-use exemption now
+follows calls on the same object only), C14-R4 (running maxima over every
+row), C14-R5 (emptiness of a border line is tested after stripping), `x +=
+[...]` on an alias of a field is an in-place mutation in the effect engine
+(C14-R1, C17-R5), C15-R4 (erased sections are re-printed un-indented), C15-R5
+/ C17-R6 (a class-level container handed to a constructor that registers in
+it), C15-R6 (rows and lines are different units - found F24), C15-R7 (record
+and print on the same paths), C16-R1 (erasing a section is an overwrite-mode
+operation), C16-R6 (lower bound of the stored step on every path), C16-R7
+(the throttle parameter is stored whatever the output), C16-R8 (= C15-R3),
+C17-R8 (a getter never replaces a configured value by what it derived from
+it), C17-R9 / R10 (= C05-R1 for `CellWrapper.fit` and for parsers kept on a
+config), C18-R5 (the validator call sits under `except Exception`), C18-R6
+(the blank-collapsed answer does not reach the single-select candidate),
+C18-R7 (`re.match`, not `re.search`), C18-R8 (end of input is `''`, so the
+abort is under a falsiness test), C19-R6 (the spinner thread never rebinds
+the handle / stop event the caller joins through), C20-R9 (a single frame
+line is tokenised under a handler for `TokenError`), C20-R10 (lines are cut
+at `\\n` only, never with `splitlines()`).
+
+**Refactor twins (false-alarm test).** Two further rounds of twenty sub-agents,
+again given only a property record and a scratch worktree, each wrote four
 behaviour-preserving changes of different kinds to the code named in the
 property's anchors (rename private names, extract / inline a helper,
 restructure control flow, reorder / split statements, equivalent idioms,
-modernise). All 80 keep the suite at baseline and are kept as
-`/verif/twins/<ID>-<n>.diff`. Run against all 20 checks
-(`tools/try_refactors.py`), the round-1/2 rules raised an alarm on 26 of them
-- every one a defect of the *checker* (a rule tied to a name, to one
-syntactic form, or to one function where the construct had moved to a
-helper). All 26 were corrected in the rules (never by loosening what is
-demanded): anchors are now found by what the code does (the validity
-predicate and cursor advance of the tokenizer, the listener store and its
-sorted cache, the section scan, the spinner thread attribute, the marker
-fields of the builder and the field behind a getter), guards are accepted in
-either polarity / conjunct order / De Morgan form, and every rule that looks
-for a construct in a function also looks through the private helpers that
-function calls on `self` (resets, invalidations, collision checks, joins,
-registrations, formatter choice, gate level table, option-token prefix,
-report writes). Taint findings are keyed by (class, kind of source -> kind of
-sink) so that extracting a helper or renaming a local does not turn a known
-finding into a new one. Now **0 of 80** raise an alarm, and all seeds are
-reported exactly as before. The four twins of each property are part of that
-property's thorough self-test.
+modernise); the second of these rounds was asked for other functions and
+files than the first. All keep the suite at baseline and are kept as
+`/verif/twins/<ID>-<n>.diff` (%d in all). Run against all 20 checks, the
+round-1/2 rules raised an alarm on 26 of the first 80 - every one a defect of
+the *checker* (a rule tied to a name, to one syntactic form, or to one
+function where the construct had moved to a helper). All were corrected in
+the rules (never by loosening what is demanded): anchors are found by what
+the code does (the validity predicate and cursor advance of the tokenizer,
+the listener store and its sorted cache, the section scan, the spinner thread
+attribute, the marker fields of the builder, the field behind a getter, the
+row counter of a section as "the field incremented by a ceiling"), guards are
+accepted in either polarity / conjunct order / De Morgan form, and every rule
+that looks for a construct in a function also looks through the private
+helpers that function calls on `self`. Taint findings are keyed by (class,
+kind of source -> kind of sink) so that extracting a helper or renaming a
+local does not turn a known finding into a new one. %s
+`tools/twins_all.py` runs every check against every twin in memory (1600+
+runs, about six minutes on 16 cores); the twins of each property are also
+part of that property's thorough self-test.
 
 Findings the sub-agents reported about the *unchanged* tree while looking for
 seeds (cross-checked): markup in messages / file names makes `run()` raise
-(= K1a-K1h); `help help` vs `help --help` differ, sections ignore `-q`/`-v` of
-their parent, ascii tables raise `ValueError: invalid width` for narrow widths,
-a frame whose file is not Python source makes `render` raise `TokenError`,
-an exception that was never raised renders nothing - these are outside the
-clauses decided here (value-level or not covered by a property clause that
-static rules can state) and are listed for whoever takes the other families.
+(= K1a-K1h, reported again independently in the second round); `help help`
+vs `help --help` differ, sections ignore `-q`/`-v` of their parent, ascii
+tables raise `ValueError: invalid width` for narrow widths, a frame whose file
+is not Python source makes `render` raise `TokenError`, an exception that was
+never raised renders nothing - these are outside the clauses decided here
+(value-level or not covered by a property clause that static rules can state)
+and are listed for whoever takes the other families.
 
 ---------------------------------------------------------------------------
 
-""" % (n, det, n, own, table)
+""" % (n, det, n, own, table, ntw, twin_note)
 rules = []
 for f in sorted(glob.glob(os.path.join(root, "evidence", "C*.json"))):
     ev = json.load(open(f))
